@@ -322,20 +322,18 @@ class Driver(object):
         """evaluate the rows of X in one call; returns ndarray of values or _Raised"""
         X = np.asarray(X, dtype=float)
         try:
-            with warnings.catch_warnings():
-                warnings.simplefilter('ignore')
-                if self.api == 'interp':
-                    if spelling and X.shape[0] == 1:
-                        arg = X[0].copy()      # 1-D spelling of one point / one 1-D table location
-                    else:
-                        arg = X.copy()
-                    r = self.obj.interpolate(arg)
-                    return np.asarray(r, dtype=float).ravel().copy()
-                p = self.obj
-                for i, nm in enumerate(self.names):
-                    p.set_val(nm, X[:, i])
-                p.run_model()
-                return np.asarray(p.get_val('f'), dtype=float).ravel().copy()
+            if self.api == 'interp':
+                if spelling and X.shape[0] == 1:
+                    arg = X[0].copy()      # 1-D spelling of one point / one 1-D table location
+                else:
+                    arg = X.copy()
+                r = self.obj.interpolate(arg)
+                return np.asarray(r, dtype=float).ravel().copy()
+            p = self.obj
+            for i, nm in enumerate(self.names):
+                p.set_val(nm, X[:, i])
+            p.run_model()
+            return np.asarray(p.get_val('f'), dtype=float).ravel().copy()
         except Exception as exc:
             r = _Raised(exc)
             r.oob = _is_oob_exc(exc, self.api)
@@ -588,22 +586,38 @@ def general_reference(gen, grids, table, P, ok):
     from openmdao.components.interp_util.interp import InterpND
     garr = [np.array(g, dtype=float) for g in grids]
     ref = np.full(len(P), np.nan)
-    with warnings.catch_warnings():
-        warnings.simplefilter('ignore')
-        for i in range(len(P)):
-            if not ok[i]:
-                continue
-            try:
-                t = InterpND(method=gen, points=garr, values=np.array(table), extrapolate=True)
-                ref[i] = float(np.asarray(t.interpolate(P[i].reshape(1, -1))).ravel()[0])
-            except Exception:
-                pass
+    for i in range(len(P)):
+        if not ok[i]:
+            continue
+        try:
+            t = InterpND(method=gen, points=garr, values=np.array(table), extrapolate=True)
+            ref[i] = float(np.asarray(t.interpolate(P[i].reshape(1, -1))).ravel()[0])
+        except Exception:
+            pass
     return ref
 
 
 # ------------------------------------------------------------------ signatures / minimisation
 
 _RAISE_OBS = ('inbounds_raises', 'extrapolation_raises', 'oob_wrong_error')
+
+
+def first_report(sig):
+    """True for the first worker of this run that reports `sig` (marker file in the run's scratch
+    directory): the runner replays every reported case twice, so a signature that thousands of
+    cases share is reported once per run, not once per case and worker"""
+    import hashlib
+    d = os.environ.get('OMV_SCRATCH')
+    if not d or not os.path.isdir(d):
+        return True
+    path = os.path.join(d, 'sig_' + hashlib.sha1(sig.encode()).hexdigest())
+    try:
+        os.close(os.open(path, os.O_CREAT | os.O_EXCL | os.O_WRONLY))
+        return True
+    except FileExistsError:
+        return False
+    except OSError:
+        return True
 
 
 def _fails_like(cfg, pts, f):
@@ -742,8 +756,10 @@ def check_group(case):
                             suppressed += 1
                             continue
                         v = make_violation(cfg, pts, f)
-                        if not any(w['sig'] == v['sig'] for w in vios):
-                            vios.append(v)
+                        if not first_report(v['sig']):
+                            suppressed += 1
+                            continue
+                        vios.append(v)
     return {'evals': evals, 'nontrivial': nt, 'outcome': dict(outcomes), 'violations': vios,
             'counters': {'violating_evaluations_not_minimised_again': suppressed},
             'sample': {'api': api, 'method': method, 'g0': case['g0'], 'n_rest': len(case['rest']),
@@ -765,9 +781,16 @@ def check_one(case):
 
 
 def check_case(case):
-    if case['kind'] == 'one':
-        return check_one(case)
-    return check_group(case)
+    # warnings and NumPy floating-point flags of the code under test are silenced once per case
+    with warnings.catch_warnings():
+        warnings.simplefilter('ignore')
+        old = np.seterr(all='ignore')
+        try:
+            if case['kind'] == 'one':
+                return check_one(case)
+            return check_group(case)
+        finally:
+            np.seterr(**old)
 
 
 def _chunks(lst, n):
@@ -786,13 +809,13 @@ def cases(tier, seed):
 
     methods1 = list(GENERAL) + [m for m, (g, dd) in FIXED.items() if dd == 1]
     # ---- 1-D: every grid of every admissible size, InterpND and the structured component
-    # (the components cost a Problem set-up per configuration: quick tier uses two grids per
+    # (the components cost a Problem set-up per configuration: quick tier uses one grid per
     # size and sign class for them, thorough all grids)
     for api in ('interp', 'comp'):
         for m in methods1:
             kmin = method_info(m)[1]
             gs = all_grids(range(kmin, 6)) if (api == 'interp' or not quick) else \
-                family(range(kmin, 6), 2)
+                family(range(kmin, 6), 1)
             for g in gs:
                 add(api, m, g, [[]])
     for api in ('semi', 'semi_tdg'):
@@ -815,14 +838,14 @@ def cases(tier, seed):
                 add('interp', m, g0, part)
         famc = family(range(kmin, 5), 1)
         if quick:
-            famc = famc[::2]
+            famc = famc[::3]
         for g0 in famc:
             add('comp', m, g0, [[g1] for g1 in famc])
     for m in SEMI:
         kmin = GENERAL[m][0]
         fams = family(range(kmin, 5), 1)
         if quick:
-            fams = fams[::2]
+            fams = fams[::3]
         for api in ('semi', 'semi_tdg'):
             for g0 in fams:
                 add(api, m, g0, [[g1] for g1 in fams])
@@ -852,6 +875,6 @@ def cases(tier, seed):
     for m in SEMI:
         kmin = GENERAL[m][0]
         fam = family(range(max(kmin, 3), 5), 1)
-        for i in range(2 if quick else 5):
+        for i in range(1 if quick else 5):
             add('semi', m, fam[i % len(fam)], [[fam[(i + 1) % len(fam)], fam[(i + 3) % len(fam)]]])
     return out
